@@ -149,7 +149,17 @@ retry:
 func (s S3Store) HasChunk(id ChunkID) (bool, error) {
 	name := s.nameFromID(id)
 	_, err := s.client.StatObject(s.bucket, name, minio.StatObjectOptions{})
-	return err == nil, nil
+	if err == nil {
+		return true, nil
+	}
+	if e, ok := err.(minio.ErrorResponse); ok {
+		switch e.Code {
+		case "NoSuchKey", "AccessDenied": // Without ListBucket perms in AWS, we get Permission Denied for a missing chunk, not 404
+			return false, nil
+		}
+	}
+	// Anything else (endpoint down, 5xx, missing bucket) doesn't say the chunk is missing
+	return false, errors.Wrap(err, s.String())
 }
 
 // RemoveChunk deletes a chunk, typically an invalid one, from the filesystem.
